@@ -480,7 +480,11 @@ def check(ctx: Ctx) -> list[RuleResult]:
     # ---- R6 ---------------------------------------------------------------------------
     r6 = RuleResult("R6", "decoders keep the wire grid", "a paired decoder's `raw / K` reaches its return without a coarser round()/int()/floor-division", min_instances=4)
     sched = repo.func("ramses_rf.system.schedule.fragz_to_full_sched")
-    decoders = [repo.func(f"{H}.hex_to_{d}") for d in ("temp", "percent", "double")] + list(sched.nested.values())
+    from .common import module_scope
+
+    # the schedule decoder's part: whichever function in its scope (nested closure or extracted helper) does the division
+    unpack_side = [g for g in module_scope(ctx, sched) if g is not sched or True]
+    decoders = [repo.func(f"{H}.hex_to_{d}") for d in ("temp", "percent", "double")] + unpack_side
     for f in decoders:
         divs = [n for n in own_nodes(f.node) if isinstance(n, ast.BinOp) and isinstance(n.op, (ast.Div, ast.FloorDiv))]
         if not divs:
